@@ -7,6 +7,9 @@
   dispatch         every documented oracle name ('convex', 'approx', 'pairwise') has a branch constructing an oracle
   returned-normalised-to-total / exp-normalised
                    every table an oracle hands back is exp of a belief normalised to the oracle's current total
+  residual-form / loss-form / gradient-form / projection-order / exactly-once
+                   the loss LocalInference descends on is the stated one and the gradient is its derivative (C04's rules
+                   applied to this copy): a wrong gradient makes the descent fit worse than its uniform start
   returns-own-iterate   estimation stores the (parameters, marginals) the inner loop returned
 Not decided: fit no worse than uniform, exactness on disjoint cliques, feasibility tolerance (numeric).
 """
@@ -126,6 +129,11 @@ def run(ctx):
         an, n = LR.L1(ctx, fi)
         n_tables += LR.L2_container(ctx, fi, an, 'self.total')
     ctx.floor('oracle return constructions', n_tables, 3)
+
+    # ---- the loss LocalInference descends on and its gradient (same rules as C04, on this copy) -------
+    from .C04 import check_loss, search_loop
+    check_loss(ctx, methods['_marginal_loss'])
+    search_loop(ctx, setup, action='append')
 
     # ---- estimate stores what the inner loop returned ----------------------------------------------
     md = methods.get('mirror_descent')
